@@ -69,6 +69,11 @@ def gen(run):
     for _ in range(40 if quick else 400):
         ops = [rng.choice(pool) for _ in range(rng.randint(1, 8))]
         hist.append('r ' + ' '.join(hx(o) for o in ops))
+    # a long history: several hundred distinct names, then every earlier name again (the registry must hand back the same tag
+    # object however much it has grown in between)
+    many = [('t%03d_x' % i).encode() for i in range(150 if quick else 1500)]
+    hist.append('r ' + ' '.join(hx(o) for o in many))
+    hist.append('r ' + ' '.join(hx(o) for o in [b'_app_def', b'_biz_def'] + pool[:20] + many[:80] + many[-5:]))
     for m in (b'app', b'biz', b'rpc'):
         for _ in range(20 if quick else 200):
             sub = bytes(rng.choice(b'abcxyz09') for _ in range(rng.randint(0, 14)))
